@@ -41,6 +41,7 @@ type zzvScn struct {
 	saturat  bool
 	presetTo uint64 // if non-zero: cell of counter 0 is pre-set to this value in set-up
 	thorough bool   // only in the thorough tier
+	deep     bool   // small enough for preemption bound 4 in the thorough tier
 }
 
 const zzvBigLen = 4096
@@ -54,18 +55,18 @@ func zzvC03Scenarios() []zzvScn {
 	return []zzvScn{
 		{name: "S1-add-add-firstopen", ctrNames: []string{"a"}, threads: [][]zzvOp{{A(0, 1)}, {A(0, 2)}, {open}}},
 		{name: "S2-twovalues-samename-open", ctrNames: []string{"a", "a"}, threads: [][]zzvOp{{A(0, 1)}, {A(1, 2)}, {open}}},
-		{name: "S3-add-add-rotate", ctrNames: []string{"a"}, preOpen: true, pre: []zzvOp{A(0, 4)}, threads: [][]zzvOp{{A(0, 1), A(0, 2)}, {rot}}},
+		{deep: true, name: "S3-add-add-rotate", ctrNames: []string{"a"}, preOpen: true, pre: []zzvOp{A(0, 4)}, threads: [][]zzvOp{{A(0, 1), A(0, 2)}, {rot}}},
 		{name: "S3b-add-add-rotate-3thr", ctrNames: []string{"a"}, preOpen: true, pre: []zzvOp{A(0, 4)}, threads: [][]zzvOp{{A(0, 1)}, {A(0, 2)}, {rot}}},
-		{name: "S4-add-vs-growth", ctrNames: []string{"a", zzvBig('b')}, preOpen: true, pre: []zzvOp{A(0, 4)}, fill: 3, threads: [][]zzvOp{{A(0, 1)}, {A(1, 2)}}},
+		{deep: true, name: "S4-add-vs-growth", ctrNames: []string{"a", zzvBig('b')}, preOpen: true, pre: []zzvOp{A(0, 4)}, fill: 3, threads: [][]zzvOp{{A(0, 1)}, {A(1, 2)}}},
 		{name: "S4b-add-add-vs-growth", ctrNames: []string{"a", zzvBig('b')}, preOpen: true, pre: []zzvOp{A(0, 4)}, fill: 3, threads: [][]zzvOp{{A(0, 1)}, {A(0, 8)}, {A(1, 2)}}, thorough: true},
 		{name: "S5-three-first-adds-open", ctrNames: []string{"a", "b", "c"}, threads: [][]zzvOp{{A(0, 1)}, {A(1, 2)}, {A(2, 4)}, {open}}, thorough: true},
 		{name: "S5q-two-first-adds-open", ctrNames: []string{"a", "b"}, threads: [][]zzvOp{{A(0, 1)}, {A(1, 2)}, {open}}},
 		{name: "S6-two-readers-rotate", ctrNames: []string{"a"}, preOpen: true, pre: []zzvOp{A(0, 4)}, threads: [][]zzvOp{{A(0, 1)}, {A(0, 2)}, {rot}}, thorough: true},
-		{name: "S7-adds-two-rotations", ctrNames: []string{"a"}, preOpen: true, pre: []zzvOp{A(0, 4)}, threads: [][]zzvOp{{A(0, 1), A(0, 2)}, {rot, rot}}},
+		{deep: true, name: "S7-adds-two-rotations", ctrNames: []string{"a"}, preOpen: true, pre: []zzvOp{A(0, 4)}, threads: [][]zzvOp{{A(0, 1), A(0, 2)}, {rot, rot}}},
 		{name: "S8a-saturate-extra", ctrNames: []string{"a"}, saturat: true, threads: [][]zzvOp{{A(0, 1<<33-2)}, {A(0, 1<<33-1)}, {A(0, 1<<62), open}}},
-		{name: "S8b-saturate-cell", ctrNames: []string{"a"}, saturat: true, preOpen: true, pre: []zzvOp{A(0, 1)}, presetTo: ^uint64(0) - 2, threads: [][]zzvOp{{A(0, 1)}, {A(0, 2)}, {A(0, 1<<62)}}},
-		{name: "S9-three-adds-mapped", ctrNames: []string{"a"}, preOpen: true, pre: []zzvOp{A(0, 4)}, threads: [][]zzvOp{{A(0, 1)}, {A(0, 2)}, {A(0, 8)}}},
-		{name: "S10-open-fails-adds", ctrNames: []string{"a"}, threads: [][]zzvOp{{A(0, 1)}, {A(0, 2)}, {zzvOp{kind: "openfail"}}}},
+		{deep: true, name: "S8b-saturate-cell", ctrNames: []string{"a"}, saturat: true, preOpen: true, pre: []zzvOp{A(0, 1)}, presetTo: ^uint64(0) - 2, threads: [][]zzvOp{{A(0, 1)}, {A(0, 2)}, {A(0, 1<<62)}}},
+		{deep: true, name: "S9-three-adds-mapped", ctrNames: []string{"a"}, preOpen: true, pre: []zzvOp{A(0, 4)}, threads: [][]zzvOp{{A(0, 1)}, {A(0, 2)}, {A(0, 8)}}},
+		{deep: true, name: "S10-open-fails-adds", ctrNames: []string{"a"}, threads: [][]zzvOp{{A(0, 1)}, {A(0, 2)}, {zzvOp{kind: "openfail"}}}},
 		{name: "S11-add-open-then-rotate", ctrNames: []string{"a", "b"}, threads: [][]zzvOp{{A(0, 1), A(1, 2)}, {open, rot}}},
 	}
 }
@@ -281,50 +282,32 @@ func TestVerifC03(t *testing.T) {
 	}
 	bounds := []int{0, 1, 2}
 	if p.Thorough() {
-		bounds = []int{0, 1, 2, 3}
+		bounds = []int{0, 1, 2, 3, 4}
 	}
 	if p.Replay != "" {
 		zzvReplayC03(base, p.Replay)
 		return
 	}
-	for si, scn := range zzvC03Scenarios() {
-		scn := scn
-		if scn.thorough && !p.Thorough() {
-			continue
-		}
-		_ = si
-		var unpruned2 sched.Stats
-		for _, b := range bounds {
+	// Bounds outermost: every scenario completes bound b before any starts b+1, so that an
+	// internal deadline cuts the deepest bound only.
+	stopped := map[string]bool{}
+	for _, b := range bounds {
+		for _, scn := range zzvC03Scenarios() {
+			scn := scn
+			if (scn.thorough && !p.Thorough()) || stopped[scn.name] {
+				continue
+			}
+			if b >= 4 && !scn.deep {
+				continue
+			}
 			sc := zzvC03Scenario(base, &scn)
 			ex := &sched.Explorer{Sc: sc, Bounds: sched.Bounds{Preempt: b}, Deadline: p.Deadline, Shard: p.Shard, NShards: p.NShards}
 			st := ex.Explore()
 			zzvRecord(res, st, zzvSigC03)
-			if b == 2 {
-				unpruned2 = st
-			}
 			if !st.Exhaustive {
-				break
+				stopped[scn.name] = true
 			}
 		}
-		if !p.Thorough() || p.Expired() {
-			continue
-		}
-		// Thorough: state-key pruning. First the cross-check at bound 2 (same outcomes and the
-		// same violation classes as the unpruned run of this worker's share), then the
-		// exploration without a preemption bound: all interleavings of the scenario.
-		exc := &sched.Explorer{Sc: zzvC03Scenario(base, &scn), Bounds: sched.Bounds{Preempt: 2}, Deadline: p.Deadline, Shard: p.Shard, NShards: p.NShards, Prune: true}
-		stc := exc.Explore()
-		if stc.Exhaustive && unpruned2.Exhaustive {
-			if a, b := zzvOutcomeSet(unpruned2), zzvOutcomeSet(stc); a != b {
-				res.Internal = fmt.Sprintf("prune cross-check failed for %s at bound 2: unpruned %s, pruned %s", scn.name, a, b)
-			}
-			res.Note("prune cross-check %s bound 2: %d executions unpruned, %d pruned (cut %d), same outcomes and violation classes", scn.name, unpruned2.Executions, stc.Executions, exc.Cut)
-		}
-		exu := &sched.Explorer{Sc: zzvC03Scenario(base, &scn), Bounds: sched.Bounds{Preempt: 1000}, Deadline: p.Deadline, Shard: p.Shard, NShards: p.NShards, Prune: true}
-		stu := exu.Explore()
-		stu.Scenario = scn.name
-		zzvRecord(res, stu, zzvSigC03)
-		res.Note("all interleavings of %s (state-key pruning): executions=%d cut=%d complete=%v", scn.name, stu.Executions, exu.Cut, stu.Exhaustive)
 	}
 	res.Write()
 }
